@@ -1,8 +1,8 @@
 (* C16 — reported fit statistics are the true statistics of the model predictions.
    Statements only; proofs are in Proofs/MetricsProofs.v; the model is Model/Metrics.v
    (exact rationals; every square root is kept as its square: [Root neg s] = (-1)^neg sqrt s). *)
-From Coq Require Import ZArith QArith Qabs List Bool.
-From V Require Import Model.Metrics Proofs.MetricsProofs.
+From Coq Require Import ZArith QArith Qabs Qreals Reals List Bool.
+From V Require Import Model.Metrics Proofs.MetricsProofs Proofs.MetricsRealProofs.
 Import ListNotations.
 Open Scope Q_scope.
 
@@ -321,3 +321,49 @@ Print Assumptions C16_savings_nonfinite_ignored.
 Example C16_savings_example :
   r_savings (reporting [(Some 1, Some 2); (None, Some 7); (Some 3, Some (9 # 2))]) == 5 # 2.
 Proof. vm_compute. reflexivity. Qed.
+
+(* ------------------------------------------------------------------ what the squares mean (over the reals)
+   [Root neg s] stands for (-1)^neg * sqrt s; the model only ever compares and divides squares.
+   These theorems tie that to the roots themselves (standard-library Reals axioms). *)
+
+Theorem C16_root_below_threshold_R : forall neg s t, 0 <= s ->
+  (val_ltb (Root neg s) t = true <-> (root_R neg s < Q2R t)%R).
+Proof. exact val_ltb_root_R. Qed.
+Print Assumptions C16_root_below_threshold_R.
+
+Theorem C16_root_above_threshold_R : forall neg s t, 0 <= s ->
+  (val_gtb (Root neg s) t = true <-> (Q2R t < root_R neg s)%R).
+Proof. exact val_gtb_root_R. Qed.
+Print Assumptions C16_root_above_threshold_R.
+
+(* CVRMSE = RMSE / mean(observed), as real numbers, whenever it is reported *)
+Theorem C16_cvrmse_is_rmse_over_mean_R : forall pl d p mn, d <> [] -> forall neg s,
+  let m := baseline_p pl d p mn in
+  b_cvrmse m = Root neg s ->
+  (root_R neg s = sqrt (Q2R (b_mse m)) / Q2R (c_mean (b_obs m)))%R /\ Q2R (c_mean (b_obs m)) <> 0%R.
+Proof. exact cvrmse_is_quotient_R. Qed.
+Print Assumptions C16_cvrmse_is_rmse_over_mean_R.
+
+(* |bias| <= MAE <= RMSE *)
+Theorem C16_bias_mae_rmse_R : forall pl d p mn, d <> [] ->
+  let m := baseline_p pl d p mn in
+  (Rabs (Q2R (b_mbe m)) <= Q2R (b_mae m))%R /\ (Q2R (b_mae m) <= sqrt (Q2R (b_mse m)))%R.
+Proof. exact mae_le_rmse_R. Qed.
+Print Assumptions C16_bias_mae_rmse_R.
+
+(* |R| <= 1 *)
+Theorem C16_r_abs_le_1_R : forall pl d p mn r, b_r2 (baseline_p pl d p mn) = Some r -> (sqrt (Q2R r) <= 1)%R.
+Proof. exact r_abs_le_1_R. Qed.
+Print Assumptions C16_r_abs_le_1_R.
+
+(* daily / billing: disqualified exactly when RMSE / mean(observed) > threshold (any threshold) *)
+Theorem C16_daily_dq_R : forall resid obs t, resid <> [] -> ~ mean obs == 0 ->
+  (daily_disqualified (daily_error resid obs) t = true <->
+   (Q2R t < sqrt (Q2R (d_mse (daily_error resid obs))) / Q2R (mean obs))%R).
+Proof. exact daily_dq_R. Qed.
+Print Assumptions C16_daily_dq_R.
+
+Example C16_root_R_example :
+  val_ltb (Root false (1 # 4)) (3 # 5) = true /\ val_ltb (Root false (1 # 4)) (1 # 2) = false /\
+  val_gtb (Root true (1 # 4)) (-3 # 5) = true /\ val_gtb (Root true (1 # 4)) (-1 # 2) = false /\ 0 <= 1 # 4.
+Proof. vm_compute. repeat split; try reflexivity; discriminate. Qed.
